@@ -388,7 +388,10 @@ def diagnose(obs, interps):
         if len(oreqs) < len(reqs):
             return "request-not-delivered:" + _top_feat(reqs[len(oreqs)])
         return "wrong-status-sequence"
-    return "no-acceptable-reading:" + "+".join(notes)[:120] + (":" + terminal[1] if terminal[0] == "reject" else "")
+    # a tolerated construct is involved: name the must-reject reason if there is one, else the first tolerated construct
+    if terminal[0] == "reject":
+        return "no-acceptable-reading:" + terminal[1]
+    return "no-acceptable-reading:" + notes[0]
 
 
 # ------------------------------------------------------------------ h11 (validates the reference on strict streams)
